@@ -126,6 +126,12 @@ func checkC05(w *World, r *Report) {
 		}
 	})
 
+	r.Rule("R05.13", "what an error says is data, never a format: in the xpath packages every format string handed to fmt.Sprintf / Errorf / Fprintf is a constant (or the function's own format parameter handed on with its own arguments) — an error text from the data tree or a piece of the expression that contains '%' must reach the caller unchanged", 5)
+	r.guard("R05.13", func() {
+		constFormats(w, r, "R05.13", []string{"xpath", "xpath/grammars/expr", "xpath/grammars/leafref", "xpath/grammars/path_eval", "xpath/xutils"},
+			"a '%' in a data-tree error, a name or the expression text is read as a verb: the message that reaches the caller is garbled and its real arguments are lost")
+	})
+
 	r.Rule("R05.8", "no error is forgotten on the XPath side: in the xpath packages every error result bound to a variable is examined", 1)
 	r.guard("R05.8", func() {
 		errRule(w, r, "R05.8", []string{"xpath", "xpath/xutils", "xpath/grammars/expr", "xpath/grammars/leafref", "xpath/grammars/path_eval"}, nil)
@@ -509,6 +515,39 @@ func (h *c05ErrFlow) arm(f *ssa.Function, arm *ssa.BasicBlock, e ssa.Value, vals
 		}
 	}
 	walk(arm)
+	// the error is dealt with whenever it is non-nil: from the arm's entry the store / raise / return is
+	// reached without a further test
+	isSink := func(in ssa.Instruction) bool {
+		switch x := in.(type) {
+		case *ssa.Call:
+			return h.execError != nil && x.Call.StaticCallee() == h.execError
+		case *ssa.Store:
+			fa, ok := x.Addr.(*ssa.FieldAddr)
+			return ok && fieldAddrVar(fa) == h.runErr && x.Val == e
+		case *ssa.Return:
+			for _, rv := range x.Results {
+				if unspill(rv) == e {
+					return true
+				}
+			}
+		}
+		return false
+	}
+	for cur, steps := arm, 0; ; steps++ {
+		found := false
+		for _, in := range cur.Instrs {
+			if isSink(in) {
+				found = true
+			}
+		}
+		if found {
+			break
+		}
+		if len(cur.Succs) != 1 || steps > 8 {
+			return "the error is dealt with only under a further condition"
+		}
+		cur = cur.Succs[0]
+	}
 	// execError panics: nothing after it runs
 	for _, b := range f.Blocks {
 		if !arm.Dominates(b) {
@@ -896,6 +935,52 @@ func tableBoundedIndex(w *World, p *packages.Package, fd *ast.FuncDecl, ix *ast.
 		return true
 	})
 	return ok2 && defs > 0
+}
+
+// constFormats: every fmt formatting call in the given packages (generated
+// and test files left out) takes a constant format, or hands on the
+// enclosing function's own (format, args...) pair.
+func constFormats(w *World, r *Report, rule string, pkgKeys []string, consequence string) {
+	fmtIdx := map[string]int{"fmt.Sprintf": 0, "fmt.Errorf": 0, "fmt.Printf": 0, "fmt.Fprintf": 1, "fmt.Appendf": 1, "log.Printf": 0, "log.Fatalf": 0, "log.Panicf": 0}
+	for _, key := range pkgKeys {
+		sp := w.SSAPkg(key)
+		p := w.Pkg(key)
+		n, bad := 0, 0
+		for _, f := range allFuncs(sp) {
+			if isTestFile(w, f.Pos()) || isGeneratedFile(w, p, f.Pos()) {
+				continue
+			}
+			for _, b := range f.Blocks {
+				for _, in := range b.Instrs {
+					c, ok := in.(ssa.CallInstruction)
+					if !ok || c.Common().StaticCallee() == nil {
+						continue
+					}
+					name := c.Common().StaticCallee().String()
+					idx, isFmt := fmtIdx[name]
+					if !isFmt || idx >= len(c.Common().Args) {
+						continue
+					}
+					n++
+					fa := c.Common().Args[idx]
+					if _, isConst := fa.(*ssa.Const); isConst {
+						continue
+					}
+					// the function's own format parameter, with its own variadic arguments
+					if prm, isP := fa.(*ssa.Parameter); isP && idx+1 < len(c.Common().Args) {
+						if rest, isR := c.Common().Args[idx+1].(*ssa.Parameter); isR && rest.Parent() == prm.Parent() && prm.Parent().Signature.Variadic() {
+							continue
+						}
+					}
+					bad++
+					r.Fail(rule, fmt.Sprintf("%s: %s #%d", funcKey(f), name, bad), in.Pos(), "the format handed to "+name+" is computed from data (`"+fa.String()+"`): "+consequence)
+				}
+			}
+		}
+		if bad == 0 {
+			r.OK(rule, key+": formatting calls", token.NoPos, fmt.Sprintf("%d calls, every format a constant", n))
+		}
+	}
 }
 
 func c05CompilePanics(w *World, r *Report) {
